@@ -105,25 +105,31 @@ fn check_bytes(v: &[u8]) {
     let d2: BorrowedBytesDeserializer<ValueError> = BorrowedBytesDeserializer::new(v);
     for (name, r) in [("bytes", LeanString::deserialize(d1)), ("borrowed_bytes", LeanString::deserialize(d2))] {
         let got = r.ok().map(|x| x.as_str().to_string());
-        if got != want { report(format!("deserialize {name} {}: {:?} vs {:?}", hex(v), got, want)); }
+        if got != want { report(format!("deserialize {name} {}: {} vs {}", brief(v), brief_s(&got), brief_s(&want))); }
     }
     // String's own visitor on the same deserializer is the second oracle
     let d3: BytesDeserializer<ValueError> = BytesDeserializer::new(v);
     let s = String::deserialize(d3).ok();
-    if s != want { report(format!("oracle disagreement on {}", hex(v))); }
+    if s != want { report(format!("oracle disagreement on {}", brief(v))); }
 }
 
+fn brief(data: &[u8]) -> String {
+    if data.len() <= 64 { hex(data) } else { format!("<{} bytes starting {}>", data.len(), hex(&data[..16])) }
+}
+fn brief_s(s: &Option<String>) -> String {
+    match s { None => "None".into(), Some(t) if t.len() <= 64 => format!("Some({:?})", t), Some(t) => format!("Some(<{} bytes>)", t.len()) }
+}
 fn check_arbitrary(data: &[u8]) {
     use arbitrary::{Arbitrary, Unstructured};
     let mut u1 = Unstructured::new(data);
     let mut u2 = Unstructured::new(data);
     let a = LeanString::arbitrary(&mut u1).ok().map(|x| x.as_str().to_string());
     let b = <&str>::arbitrary(&mut u2).ok().map(|x| x.to_string());
-    if a != b { report(format!("arbitrary {}: {:?} vs {:?}", hex(data), a, b)); }
-    if u1.len() != u2.len() { report(format!("arbitrary consumed differently on {}", hex(data))); }
+    if a != b { report(format!("arbitrary {}: {} vs {}", brief(data), brief_s(&a), brief_s(&b))); }
+    if u1.len() != u2.len() { report(format!("arbitrary consumed differently on {}", brief(data))); }
     let a = LeanString::arbitrary_take_rest(Unstructured::new(data)).ok().map(|x| x.as_str().to_string());
     let b = <&str>::arbitrary_take_rest(Unstructured::new(data)).ok().map(|x| x.to_string());
-    if a != b { report(format!("arbitrary_take_rest {}: {:?} vs {:?}", hex(data), a, b)); }
+    if a != b { report(format!("arbitrary_take_rest {}: {} vs {}", brief(data), brief_s(&a), brief_s(&b))); }
     if LeanString::size_hint(0) != <&str>::size_hint(0) { report("size_hint".into()); }
 }
 
@@ -133,14 +139,34 @@ fn main() {
     let count: u64 = a.get(2).and_then(|s| s.parse().ok()).unwrap_or(20000);
     let mut checked = 0u64;
     // strings: escapes, multi-byte, lengths around the inline limit
-    let pieces = ["", "a", "\"", "\\", "\n", "\u{0}", "\u{7f}", "é", "€", "𝄞", "\u{2028}", " ", "/", "\u{1f}", "ß水"];
+    let pieces = ["", "a", "\"", "\\", "\n", "\u{0}", "\u{7f}", "é", "€", "𝄞", "\u{2028}", " ", "/", "\u{1f}", "ß水", "\u{feff}", "\u{fffd}"];
     let mut st = seed.wrapping_mul(0x2545F4914F6CDD1D) ^ 0xABCDEF;
     for n in 0..count {
         let target = [0usize, 1, 7, 15, 16, 17, 18, 31, 32, 33, 64][(n % 11) as usize];
         let mut s = String::new();
         while s.len() < target { s.push_str(pieces[(splitmix(&mut st) % pieces.len() as u64) as usize]); if s.is_empty() { s.push('x'); } }
         check_str(&s);
+        // the same text handed over as bytes (what a binary format does)
+        check_bytes(s.as_bytes());
         checked += 1;
+    }
+    // a byte order mark is text like any other: at the start, alone, before ill-formed input
+    for v in [&b"\xef\xbb\xbf"[..], b"\xef\xbb\xbfid", b"\xef\xbb\xbf\xef\xbb\xbf", b"\xef\xbb\xbf\xff", b"\xef\xbb", b"a\xef\xbb\xbf"] {
+        check_bytes(v);
+        check_str(&String::from_utf8_lossy(v));
+        check_arbitrary(v);
+        checked += 1;
+    }
+    // long inputs (limits a wrapper may have put in: 2^16, 2^20): text of n bytes, for `arbitrary` followed by a length
+    // suffix that selects all of it
+    for n in [255usize, 256, 65534, 65535, 65536, 65537, 70000, (1 << 20) + 3] {
+        let mut v: Vec<u8> = "aé€𝄞 zß水".bytes().cycle().take(n).collect();
+        while std::str::from_utf8(&v).is_err() { v.pop(); }
+        check_arbitrary(&v);
+        check_bytes(&v);
+        v.extend_from_slice(&[0xff; 8]);
+        check_arbitrary(&v);
+        checked += 3;
     }
     // bytes: all sequences up to length 4 over the UTF-8 class alphabet + damaged long texts
     const ALPHA: [u8; 20] = [0x00, 0x41, 0x7f, 0x80, 0x8f, 0x90, 0x9f, 0xa0, 0xbf, 0xc0, 0xc2, 0xdf, 0xe0, 0xe1, 0xed, 0xef, 0xf0, 0xf1, 0xf4, 0xf5];
